@@ -8,6 +8,14 @@ the internal dumps before the edit / after ts_tree_edit / after the re-parse.  J
 TsVerif/C12/Judge.lean, run by tsv-c12): fractions vs the committed checks/c12_thresholds.json,
 growth between sizes, and the marking theorems' statements decided on the real dumps.
 
+Round 11: interrupted drives.  For two (edit position, interruption mode) pairs per language and both
+sizes the SAME re-parse is cancelled by the progress callback (ParseOptions::progress_callback ->
+Break) at the k-th callback invocation (early / middle / late / twice) and resumed by calling parse
+again without reset until the tree is complete; lexed tokens and served bytes are summed over the
+interrupted run and the resumed run(s), node sharing is taken between the edited old tree and the
+final tree, and the same judge with the same thresholds decides (case id `<lang>-<size>-<pos>@<mode>`).
+Interrupted drives never enter the calibration.
+
 Calibration (only by hand, on the reference tree):  VERIF_C12_CALIBRATE=1 ./check C12 --tier thorough
 rewrites checks/c12_thresholds.json from the measured values (5x, floor 2 %; the all-heap-node
 sharing metric additionally capped half-way between the measured value and 100 %)."""
@@ -47,7 +55,7 @@ def run(ctx):
     ctx.assumptions += ["documents are error-free and generated (grammar-directed units + one deep block), single numeric-token replacement",
                         "constants and wall-clock cost are runtime behaviour: measured, not proved"]
     ctx.regen()
-    ctx.prove(["TsVerif.C12.Props"], "TsVerif/C12/Audit.lean")
+    ctx.prove(["TsVerif.C12.Props", "TsVerif.C12.Round11", "TsVerif.C12.Round11b"], "TsVerif/C12/Audit.lean")
     driver = ctx.build_driver("tsv-c12")
     explorer = ctx.cargo_bin("c12")
     if not (explorer and os.path.exists(driver)):
@@ -72,10 +80,20 @@ def run(ctx):
         ctx.oblige("run:explorer", False, out[-800:])
         return ctx.finish()
     specs = {}
+    interrupts = {}
+    edits = {}
+    cur = ""
     for line in open(ops):
+        if line.startswith("case "):
+            cur = line.split()[1]
+        elif line.startswith("edit ") and cur:
+            edits[cur] = line.rstrip("\n")[5:]
         if line.startswith("spec "):
             _, cid, rest = line.rstrip("\n").split(" ", 2)
             specs[cid] = rest
+        elif line.startswith("interrupt "):
+            icid, ikv = parse_kv_line(line.rstrip("\n").split(" ", 1)[1])
+            interrupts[icid] = ikv
     pre = os.path.join(ctx.workdir, "thr.txt")
     with open(pre, "w") as f:
         for key, v in sorted(thr.items()):
@@ -87,7 +105,9 @@ def run(ctx):
     open(fin, "w").write("finish\n")
     rc, out = sh("cat %s %s %s | %s" % (pre, ops, fin, driver), timeout=3000)
     evals = judge_bad = growth_n = growth_bad = marks_checked = 0
+    base_evals = intr_evals = intr_bad = growth_skipped_interrupted = 0
     measured = {}
+    measured_intr = {}
     table = []
     samples = []
     for line in out.split("\n"):
@@ -99,6 +119,9 @@ def run(ctx):
         if cid.startswith("growth-"):
             if ctx.replay and "fewer than two sizes" in kv["judge"]:
                 continue   # replay of a single (size, position) case: nothing to compare
+            if "@" in cid and "fewer than two sizes" in kv["judge"]:
+                growth_skipped_interrupted += 1   # this drive was cancelled at one size only (counted below)
+                continue
             growth_n += 1
             if kv["judge"] != "ok" and not calibrate:
                 growth_bad += 1
@@ -111,13 +134,20 @@ def run(ctx):
         evals += 1
         lang, size, wher = cid.split("-")
         key = "%s/%s" % (lang, size)
-        m = measured.setdefault(key, {k: 0 for k in METRICS})
+        interrupted = "@" in wher
+        intr = interrupts.get(cid, {}) if interrupted else {}
+        # thresholds are calibrated on uninterrupted re-parses only; interrupted drives are judged against them
+        m = (measured_intr if interrupted else measured).setdefault(key, {k: 0 for k in METRICS})
         for k in METRICS:
             m[k] = max(m[k], int(kv.get(k, "0") or 0))
         marks_checked += kv.get("marks") == "ok"
-        table.append({"case": cid, **{k: int(kv.get(k, "0") or 0) for k in METRICS},
+        base_evals += not interrupted
+        intr_evals += interrupted
+        table.append({"case": cid, **({"interrupted": intr} if interrupted else {}), **{k: int(kv.get(k, "0") or 0) for k in METRICS},
                       "tokens": int(kv.get("tokens", "0") or 0), "lexed": int(kv.get("lexed", "0") or 0),
                       "heap_nodes": int(kv.get("heap", "0") or 0), "marked": int(kv.get("marked", "0") or 0),
+                      "cand_prem": kv.get("cand_prem", "-"), "descended": kv.get("desc", "-"), "tips": kv.get("tips", "-"), "tips_bound": kv.get("tips_bound", "-"),
+                      "reuse_candidates": kv.get("cand", "-"), "cand_bound": kv.get("cand_bound", "-"),
                       "uncovered_new_nodes": kv.get("uncovered", "-"), "stray_uncovered": kv.get("stray", "-"), "work_bound": kv.get("work_bound", "-"),
                       "repeat_chains": int(kv.get("chains", "0") or 0), "chain_max_elems": int(kv.get("chain_max_elems", "0") or 0),
                       "chain_max_height": int(kv.get("chain_max_height", "0") or 0), "balance_slack": int(kv.get("balance_slack", "0") or 0)})
@@ -125,6 +155,16 @@ def run(ctx):
             samples.append({"case": cid, "spec": specs.get(cid, ""), "result": kv})
         if kv["judge"] != "ok" and not (calibrate and "threshold" in kv["judge"]):
             judge_bad += 1
+            if interrupted:
+                intr_bad += 1
+                ctx.violation("judge", "C12 judge failed on the real re-parse INTERRUPTED by the progress callback at callback(s) %s of %s "
+                              "and resumed (sums over %s runs; lexed per run %s, bytes served per run %s): %s"
+                              % (intr.get("cancel_at", "?"), intr.get("callbacks_uncancelled", "?"), intr.get("runs", "?"),
+                                 intr.get("lexed_per_run", "?"), intr.get("bytes_per_run", "?"), kv["judge"]),
+                              {"case": cid, "spec": specs.get(cid, ""), "cancel_at_callbacks": intr.get("cancel_at", ""),
+                               "edit": edits.get(cid, ""), "interrupt": intr, "result": kv},
+                              fingerprint={"lang": lang, "clause": kv["judge"][:50], "interrupted": True})
+                continue
             ctx.violation("judge", "C12 judge failed on the real re-parse: " + kv["judge"],
                           {"case": cid, "spec": specs.get(cid, ""), "result": kv},
                           fingerprint={"lang": lang, "clause": kv["judge"][:50]})
@@ -137,17 +177,53 @@ def run(ctx):
                    "measured_max_ppm": measured, "thresholds": merged}, open(THR, "w"), indent=1, sort_keys=True)
         ctx.log("calibrated thresholds written to " + THR)
     if not ctx.replay:
-        ctx.oblige("run:all-cases-built", evals >= 96 and growth_n >= 42, "evals=%d growth=%d" % (evals, growth_n))
+        ctx.oblige("run:all-cases-built", base_evals >= 96 and growth_n >= 42, "evals=%d growth=%d" % (base_evals, growth_n))
+        n_att = len(interrupts)
+        n_can = len([1 for v in interrupts.values() if int(v.get("cancelled", "0")) > 0])
+        n_done = len([1 for v in interrupts.values() if v.get("completed") == "1"])
+        ctx.oblige("run:interrupted-drives", n_att >= 32 and n_done == n_att and 4 * n_can >= 3 * n_att and intr_evals == n_can,
+                   "attempted=%d completed=%d actually-cancelled=%d judged=%d" % (n_att, n_done, n_can, intr_evals))
     ctx.coverage["reparse_work_premise"] = {
         "what": "premise of reparse_work_bound_partial: no uncovered node of the new tree fails to reach the edit (stray = 0)",
         "cases_evaluated": len([r for r in table if r["stray_uncovered"] != "-"]),
         "cases_where_it_holds": len([r for r in table if r["stray_uncovered"] == "0"])}
+    modes = {}
+    for icid, v in interrupts.items():
+        mo = modes.setdefault(icid.split("@", 1)[1], {"attempted": 0, "cancelled": 0})
+        mo["attempted"] += 1
+        mo["cancelled"] += int(v.get("cancelled", "0")) > 0
+    ctx.coverage["interrupted_drives"] = {
+        "what": "re-parse of the same single-token edit cancelled by the progress callback (Break at the listed 0-based callback "
+                "invocation(s); the callback fires every 100 parse operations) and resumed by parse-without-reset until complete; "
+                "lexed tokens / served bytes summed over all runs of the drive, sharing = edited old tree vs final tree; same judge, same thresholds",
+        "attempted": len(interrupts),
+        "actually_cancelled": len([1 for v in interrupts.values() if int(v.get("cancelled", "0")) > 0]),
+        "cancelled_twice": len([1 for v in interrupts.values() if int(v.get("cancelled", "0")) > 1]),
+        "total_cancellations": sum(int(v.get("cancelled", "0")) for v in interrupts.values()),
+        "resume_parsing_log_events": sum(int(v.get("resume_events", "0")) for v in interrupts.values()),
+        "completed": len([1 for v in interrupts.values() if v.get("completed") == "1"]),
+        "judged": intr_evals, "judge_failed": intr_bad,
+        "by_mode": modes,
+        "callbacks_uncancelled_min_max": [min([int(v.get("callbacks_uncancelled", "0")) for v in interrupts.values()] or [0]),
+                                          max([int(v.get("callbacks_uncancelled", "0")) for v in interrupts.values()] or [0])],
+        "growth_comparisons_skipped_one_size_only": growth_skipped_interrupted,
+        "measured_max_ppm": measured_intr,
+        "drives": interrupts}
+    ctx.coverage["edit_candidates_total_bound"] = {
+        "what": "Round11b theorem decided on the real before/after dumps of ts_tree_edit: premises clean/noCol/tiles on the tree before the edit; "
+                "tips <= w+la+2+Z, descended <= that*(h+1), reuse candidates (maximal unmarked subtrees) <= 1+that*(h+1)*fanout; a failure is a judge failure",
+        "cases_evaluated": len([r for r in table if r["cand_prem"] != "-"]),
+        "cases_where_premises_hold": len([r for r in table if r["cand_prem"] == "1"]),
+        "max_tips": max([int(r["tips"]) for r in table if r["tips"] != "-"] or [0]),
+        "max_reuse_candidates": max([int(r["reuse_candidates"]) for r in table if r["reuse_candidates"] != "-"] or [0])}
     ctx.coverage.update({
         "evaluations": evals + growth_n, "distinct_nontrivial": evals,
         "rule": "one evaluation = one (language, document size, edit position) re-parse on the real runtime plus one growth comparison per "
                 "(language, edit position); languages lst, arith, jsonish, stmt the GLR grammar cdecl (dynamic-precedence ambiguity `t * p;` every 40 units) the indentation grammar pyish and markscan (stateful external scanners; markscan's token sits in the middle of statements) and declscan (STATELESS external scanner; documents without any external token, the edit `7` -> `q!` adds the first one); sizes 10^3, 10^4 (thorough: 10^5) tokens; positions start, 25 %, "
                 "50 %, 75 %, end, inside a 24-deep block; the edit replaces one numeric token (the token sequence changes, the document stays "
-                "error-free, incremental tree == scratch tree is required); every case is non-trivial (>= 10^3 tokens) and distinct by construction",
+                "error-free, incremental tree == scratch tree is required); every case is non-trivial (>= 10^3 tokens) and distinct by construction; "
+                "plus (round 11) per language and size two interrupted drives `<pos>@<mode>` (cancelled by the progress callback early / in the middle / late / twice, "
+                "resumed to completion, quantities summed over all runs, see coverage.interrupted_drives), counted only when at least one cancellation happened",
         "samples": samples, "measurements": table, "measured_max_ppm": measured, "thresholds": thr,
         "correspondence": {"compared": marks_checked, "equal": marks_checked,
                            "what": "statements of marked_bound / unmarked_shared (+ upper side) decided on real before/after dumps of ts_tree_edit"},
